@@ -77,7 +77,15 @@ const epochKey = "\x00epoch"
 func (E *Engine) havocAll(st *State, why string) {
 	E.note("havoc of the whole heap: %s", why)
 	ep := st.heap[epochKey]
-	st.heap = map[string]string{epochKey: ep + "'"}
+	nh := map[string]string{epochKey: ep + "'"}
+	for k, v := range st.heap {
+		// cells of captured / escaping locals are private to the functions that declare
+		// or capture them: an unknown callee cannot reach them
+		if strings.HasPrefix(k, "var<") {
+			nh[k] = v
+		}
+	}
+	st.heap = nh
 	defer func() { st.heap[allocKey] = st.alloc }()
 	if st.written != nil {
 		st.written["*"] = true
@@ -281,7 +289,11 @@ func (E *Engine) applySpec(st *State, in ssa.Instruction, spec *FuncSpec, callee
 	if callee != nil {
 		for i, fv := range callee.FreeVars {
 			if i < len(bindings) {
-				vars[fv.Name()] = bindings[i]
+				nv := *bindings[i]
+				if _, isPtr := types.Unalias(fv.Type()).Underlying().(*types.Pointer); isPtr {
+					nv.AutoDeref = true
+				}
+				vars[fv.Name()] = &nv
 			}
 		}
 	}
@@ -509,7 +521,7 @@ func (E *Engine) modComps(mi *modItem) []string {
 	if lv.Kind == lvElem {
 		root = elemsRoot(lv.Root)
 	} else {
-		root = E.rootName(lv.Root)
+		root = E.rootOf(lv)
 	}
 	var ls []leafInfo
 	E.leafPaths(E.lvType(lv), "", &ls)
